@@ -1,16 +1,30 @@
-// lane N helpers appended to src/blockchain/parser/blkfile.rs
-pub fn is_open(b: &BlkFile) -> bool { b.reader.is_some() }
+// lane N suite appended to src/blockchain/parser/blkfile.rs   (C03: file names, black box)
 
-/// C03 (bounded: a catalogue of names): blk + digits + .dat (any zero padding) is a blk file with that number; nothing else is
+/// C03 (bounded: a catalogue of names): a block stored in a file named blk + digits + .dat (any zero padding) is found
+/// under that number; a file with any other name is not a blk file
 #[test]
 fn c03_blk_file_names() {
     let suite = "c03_blk_file_names";
-    let good: Vec<(String, u64)> = vec![("blk00000.dat".into(), 0), ("blk00042.dat".into(), 42), ("blk7.dat".into(), 7), ("blk0000000123.dat".into(), 123),
-        ("blk99999.dat".into(), 99999), ("blk100000.dat".into(), 100000), ("blk18446744073709551615.dat".into(), u64::MAX)];
-    let bad = ["blk.dat", "blk00001.dat.dat", "blkblk7.dat", "00007.dat", "xblk00001.dat", "blk00001.dat.bak", "blk0001", "rev00001.dat", "blk-1.dat",
-               "blk00001.DAT", "blk 1.dat", "blk1x.dat", "blk18446744073709551616.dat", "", ".dat", "blk"];
+    let chain = make_chain(2, &mut |_| vec![]);
+    let good: Vec<(&str, u64)> = vec![("blk00000.dat", 0), ("blk00042.dat", 42), ("blk7.dat", 7), ("blk0000000123.dat", 123), ("blk99999.dat", 99999),
+        ("blk100000.dat", 100000), ("blk18446744073709551615.dat", u64::MAX)];
+    let bad: Vec<(&str, u64)> = vec![("blk.dat", 0), ("blk00001.dat.dat", 1), ("blkblk7.dat", 7), ("00007.dat", 7), ("xblk00001.dat", 1), ("blk00001.dat.bak", 1),
+        ("blk0001", 1), ("rev00001.dat", 1), ("blk-1.dat", 1), ("blk00001.DAT", 1), ("blk 1.dat", 1), ("blk1x.dat", 1), ("blk18446744073709551616.dat", 0), (".dat", 0), ("blk", 0)];
     let mut cases = 0;
-    for (n, v) in &good { cases += 1; let g = BlkFile::parse_blk_index(n, "blk", ".dat"); check(g == Some(*v), suite, "C03:blk_file_number_from_name", n, &format!("{:?}", g), &format!("Some({})", v)); }
-    for n in bad { cases += 1; let g = BlkFile::parse_blk_index(n, "blk", ".dat"); check(g.is_none(), suite, "C03:files_named_by_no_record_are_ignored", n, &format!("{:?}", g), "None"); }
+    let run = |name: &str, no: u64| -> std::result::Result<Vec<std::result::Result<Option<[u8; 32]>, String>>, String> {
+        let mut d = DataDir::new();
+        d.add(no, 0, &chain[0], ST_ACTIVE); d.add(no, 1, &chain[1], ST_ACTIVE);
+        d.set_file_name(no, name);
+        d.write();
+        fetch(d.path(), "bitcoin", 0, None, false, &[0, 1])
+    };
+    for (n, v) in &good { cases += 1;
+        let r = run(n, *v);
+        let ok = matches!(&r, Ok(x) if x.len() == 2 && matches!(x[0], Ok(Some(h)) if h == chain[0].hash()) && matches!(x[1], Ok(Some(h)) if h == chain[1].hash()));
+        check(ok, suite, "C03:blk_file_number_from_name", &format!("{} holding the blocks the index places in file {}", n, v), &format!("{:?}", r.map(|x| x.iter().map(|y| y.is_ok()).collect::<Vec<_>>())), "both blocks delivered"); }
+    for (n, v) in &bad { cases += 1;
+        let r = run(n, *v);
+        let delivered = matches!(&r, Ok(x) if x.iter().any(|y| matches!(y, Ok(Some(_)))));
+        check(!delivered, suite, "C03:files_named_by_no_record_are_ignored", &format!("{} (not a blk file name) holding the blocks of file {}", n, v), "blocks delivered from it", "not collected as a blk file"); }
     finish(suite, cases);
 }
